@@ -42,7 +42,7 @@ def run(ctx):
         R.write_list(blist, bases + fuzz)
         # the thorough tier works through its 200 000 corrupted images in batches of 10 000, deleting
         # each batch before the next is written (disk: a batch is ~3 GB, all at once was ~65 GB)
-        batches = [(ctx.seed, 3000)] if quick else [(ctx.seed + 7919 * k, 10000) for k in range(20)]
+        batches = [(ctx.seed, 8000)] if quick else [(ctx.seed + 7919 * k, 10000) for k in range(20)]
         classes, mhist = {}, {}
         bad = 0
         all_ops, all_imp = [], []
